@@ -66,6 +66,15 @@ func sortStrings(s []string) {
 	}
 }
 
+func (g *Gen) isRing() bool {
+	for _, p := range g.ct.Preludes {
+		if p == "fieldring" {
+			return true
+		}
+	}
+	return false
+}
+
 func (g *Gen) smtFor(o *Obligation) string {
 	var b strings.Builder
 	b.WriteString("; obligation " + o.Name + "\n; " + o.Desc + "\n; at " + o.Pos + "\n")
@@ -234,7 +243,19 @@ func discharge(g *Gen, o *Obligation, workDir string, timeout int, st *solverSta
 		}
 		t1 = timeout
 	}
-	done := race([]solverSpec{solvers[0], solvers[2]}, t1)
+	stage1 := []solverSpec{solvers[0], solvers[2]}
+	if g.isRing() && !o.MustSat {
+		// polynomial identities over the integers: normalise to sums of monomials first (z3 tactic pipeline)
+		ringFile := strings.TrimSuffix(file, ".smt2") + ".ring.smt2"
+		txt := strings.Replace(g.smtFor(o), "(check-sat)\n(get-model)", "(check-sat-using (then simplify propagate-values solve-eqs (! simplify :som true) nlsat))", 1)
+		if os.WriteFile(ringFile, []byte(txt), 0o644) == nil {
+			defer os.Remove(ringFile)
+			stage1 = append(stage1, solverSpec{"z3-new(ring tactic)", func(f string, t int) []string {
+				return []string{"z3-new", fmt.Sprintf("-T:%d", t), "-smt2", ringFile}
+			}})
+		}
+	}
+	done := race(stage1, t1)
 	if !done && timeout > t1 {
 		o.Output = ""
 		done = race(solvers, timeout)
